@@ -22,6 +22,7 @@ func init() {
 			{"connect.go", "fmt.Fprintf(w, \"Password: %q\\n\", stars(len(p.Password())))", "fmt.Fprintf(w, \"Password: %q\\n\", starsOf(p.Password()))"},
 			{"connect.go", "func stars(v int) string {", "func starsOf(v []byte) string {\n\tif len(v) > 0 && v[0] == 'x' {\n\t\treturn \"x********\"\n\t}\n\treturn stars(len(v))\n}\n\nfunc stars(v int) string {"}}},
 		{Name: "password-written-to-writer", Rule: "R18.1", Where: "(*Connect).dump", Edits: []Edit{{"connect.go", "\tp.UserProperties.dump(w)\n}\n\nfunc stars", "\tp.UserProperties.dump(w)\n\tw.Write(p.password)\n}\n\nfunc stars"}}},
+		{Name: "decoder-rewinds-to-declared-property-end", Rule: "R18.3", Where: "offset written outside get", Edits: []Edit{{"buffer.go", "\t\tdefault:\n\t\t\tb.err = fmt.Errorf(\"unknown property id 0x%02x\", id)\n\t\t}\n\t}\n", "\t\tdefault:\n\t\t\tb.err = fmt.Errorf(\"unknown property id 0x%02x\", id)\n\t\t}\n\t}\n\tb.i = end\n"}}},
 		{Name: "print-length-only", Silent: true, Edits: []Edit{{"connect.go", "fmt.Fprintf(w, \"Password: %q\\n\", stars(len(p.Password())))", "fmt.Fprintf(w, \"Password: %d bytes\\n\", len(p.Password()))"}}},
 	}})
 }
@@ -339,6 +340,8 @@ func checkC18(p *Prog, c *Check) {
 	c.Explanation = "Forward value-flow (taint) analysis over the SSA form of every function reachable from Connect.String, Connect.dump and Dump, context-insensitive across calls, through conversions, slicing, element loads, phis, stores into local memory, copy into buffers, closures and call results. Non-interference follows: with no explicit or implicit flow from the credential bytes to the output, two packets that differ only in the content of equally long credentials produce the same output."
 	c.Trusted = []string{"go/types + go/ssa (x/tools v0.29.0) faithful IR", "len, cap and copy's result depend only on lengths", "fmt prints exactly its operands"}
 	c.Assumptions = []string{"credentials enter a CONNECT only through the fields behind Username()/Password() (SetUsername/SetPassword/decode)"}
+	c.Rule("R18.3", "packets decoded from the wire: the sequential reader's offset is written only by its guarded primitive, which only moves it forward, so every byte of a frame is decoded into at most one field and the bytes of the user name and password cannot also appear in a field that diagnostics print (same lemmas as C04 R4.0)")
+	p.Cursor().CheckLemmas(p, c, "R18.3")
 	fu, ok1 := p.accessorField("Connect", "Username")
 	fp, ok2 := p.accessorField("Connect", "Password")
 	if !ok1 || !ok2 {
